@@ -56,6 +56,10 @@ func (rd *HandlingDataManager) VerifHandleApplyFlows() func(http.ResponseWriter,
 	return rd.handleApplyFlows()
 }
 
+func (rd *HandlingDataManager) VerifHandleFlowsLoading() func(http.ResponseWriter, *http.Request) {
+	return rd.handleFlowsLoading()
+}
+
 // VerifStream returns the engine transactions are currently served by (what processRequest reads).
 func (rd *HandlingDataManager) VerifStream() *streams.Stream { return rd.stream }
 
